@@ -2,7 +2,7 @@
 //! parsing, Merger, batcher, Sorters, KvBatch, UnionBatch, temp files, mmap)
 //! executed on shuttle coroutines under a seeded scheduler that we own.
 //!
-//! Real: everything `#[path]`-included below from /repo/fst-bin/src, the fst
+//! Real: everything included below from /repo/fst-bin/src (through build.rs), the fst
 //! library, the filesystem (a per-run tmpfs directory), memmap2.
 //! Stubs: `std::thread` -> `shuttle::thread` (through the cfg-guarded seam in
 //! merge.rs) and `crossbeam_channel` -> the shim in ./xchan (through a
@@ -10,19 +10,27 @@
 
 use anyhow::Error;
 
-#[path = "/repo/fst-bin/src/app.rs"]
-mod app;
-mod cmd {
-    #[path = "/repo/fst-bin/src/cmd/map.rs"]
-    pub mod map;
-    #[path = "/repo/fst-bin/src/cmd/set.rs"]
-    pub mod set;
+// The fst-bin sources are included from OUT_DIR, where build.rs puts an
+// instrumented copy of /repo/fst-bin/src (std::sync primitives other than
+// Arc mapped to their shuttle twins; identical text on the pinned tree).
+mod app {
+    include!(concat!(env!("OUT_DIR"), "/fstbin/app.rs"));
 }
-#[path = "/repo/fst-bin/src/merge.rs"]
-mod merge;
-#[path = "/repo/fst-bin/src/util.rs"]
+mod cmd {
+    pub mod map {
+        include!(concat!(env!("OUT_DIR"), "/fstbin/cmd_map.rs"));
+    }
+    pub mod set {
+        include!(concat!(env!("OUT_DIR"), "/fstbin/cmd_set.rs"));
+    }
+}
+mod merge {
+    include!(concat!(env!("OUT_DIR"), "/fstbin/merge.rs"));
+}
 #[allow(dead_code)]
-mod util;
+mod util {
+    include!(concat!(env!("OUT_DIR"), "/fstbin/util.rs"));
+}
 #[path = "../../sim/src/rng.rs"]
 #[allow(dead_code)]
 mod rng;
